@@ -59,7 +59,25 @@ class SpoolCheck(object):
             return ''.join(r.choice(alpha) for _ in range(n))
         return b''.join(r.choice(BYTE_ALPHA) for _ in range(n)).decode('latin-1')
 
+    def gen_big(self, r, ctx):
+        """Content longer than the 21333-code-point decode chunk, positions on both sides of its multiples."""
+        unit = ''.join(r.choice(TEXT_ALPHA if self.text else ['a', 'b', '\n', 'z', '\xff']) for _ in range(97))
+        ops = [['write', unit * r.randint(120, 180)] for _ in range(3)]
+        total = sum(len(o[1]) for o in ops)
+        marks = [21333, 42666, 21332, 21334, 30000, total - 1, total - 21333, 1, 25000]
+        for _ in range(r.randint(6, 14)):
+            k = r.choice(['seek', 'seek', 'read_n', 'readline', 'tell', 'len', 'next'])
+            if k == 'seek':
+                ops.append(['seek', max(0.0, min(1.0, (r.choice(marks) + r.randint(-2, 2)) / float(total)))])
+            elif k == 'read_n':
+                ops.append(['read', r.choice([1, 5, 21333, 21334, 40])])
+            else:
+                ops.append([k])
+        return {'kind': 'text' if self.text else 'bytes', 'exotic': False, 'ops': ops}
+
     def gen(self, r, ctx):
+        if getattr(self, 'big', False):
+            return self.gen_big(r, ctx)
         exotic = self.text and r.random() < 0.15
         ops = []
         big = ctx is not None and ctx.thorough and r.random() < 0.03
@@ -291,6 +309,10 @@ def run(ctx):
     explore(ctx, SpoolCheck(False), n, 'sbytes')
     explore(ctx, SpoolCheck(True), n, 'sstring')
     explore(ctx, MfrCheck(), n * 2, 'mfr')
+    for text in (True, False):
+        big = SpoolCheck(text)
+        big.big = True
+        explore(ctx, big, {'quick': 2, 'thorough': 40}[ctx.tier], 'big-' + ('text' if text else 'bytes'))
 
 
 def replay(witness):
